@@ -10,6 +10,7 @@ pub mod c05;
 pub mod c06;
 pub mod c08;
 pub mod c09;
+pub mod c11;
 pub mod c12;
 pub mod c13;
 pub mod c15;
@@ -34,6 +35,7 @@ pub fn run(prop: &str, rep: &Report) {
         "C06" => c06::run(rep),
         "C08" => c08::run(rep),
         "C09" => c09::run(rep),
+        "C11" => c11::run(rep),
         "C12" => c12::run(rep),
         "C13" => c13::run(rep),
         "C15" => c15::run(rep),
@@ -52,6 +54,7 @@ pub fn replay(case: &Value) -> Vec<Violation> {
         "narrow" => c15::replay(case),
         "c09" => c09::replay(case),
         "c03" => c03::replay(case),
+        "c11_issuer" | "c11_holder" => c11::replay(case),
         "c04" | "c04_text" => c04::replay(case),
         "c08" => c08::replay(case),
         "c02" | "c02_key" | "c02_control" | "c02_iss" => c02::replay(case),
